@@ -243,10 +243,25 @@ func checkModel(m *ref.SpecModel, src string) (rejected bool, err error) {
 	if perr != nil {
 		pairs, unknown := reported(perr.Error())
 		if len(unknown) > 0 {
-			return true, fmt.Errorf("the diagnostics contain a message that names none of the documented problems: %q\nfull message: %v\nspecification:\n%s", unknown[0], perr, src)
+			// wording the harness does not know: not judged (counted), the subject test below still applies
+			rec.Count("diagnostic_lines_not_recognised", len(unknown))
 		}
 		if len(pairs) == 0 {
-			return true, fmt.Errorf("the specification is rejected without naming a problem: %v\nspecification:\n%s", perr, src)
+			// no recognised message: at least the subject of one present problem must be named
+			named := false
+			for k := range present {
+				subject := k[strings.Index(k, ":")+1:]
+				if k == "nostart" {
+					subject = "start"
+				}
+				if strings.HasPrefix(k, "handle:") {
+					subject = subject[strings.Index(subject, ":")+1:]
+				}
+				named = named || (subject != "" && strings.Contains(perr.Error(), subject))
+			}
+			if !named {
+				return true, fmt.Errorf("the specification is rejected without naming any of the problems present (%v): %v\nspecification:\n%s", keys(present), perr, src)
+			}
 		}
 		for _, p := range pairs {
 			ok := present[p]
